@@ -51,7 +51,6 @@ var extremes = []int{math.MaxInt64, math.MaxInt64 - 1, math.MaxInt64 - 3, math.M
 
 func (g *gen) extreme() int { return extremes[g.r.below(len(extremes))] }
 
-
 func (g *gen) sn() *snap { return g.run.cur }
 
 func (g *gen) sigsWhere(f func(h int) bool) []int {
@@ -159,7 +158,11 @@ func (g *gen) setup() bool {
 		case p < 45:
 			b = 8
 		}
-		if !g.emit(op{k: "newmsg", z: b}) {
+		k := "newmsg"
+		if b >= 0 && b <= busLimit && r.chance(35) {
+			k = "newmsgbus" // sent by a node interface of a CAN 2.0A bus
+		}
+		if !g.emit(op{k: k, z: b}) {
 			return false
 		}
 	}
@@ -256,14 +259,14 @@ func (g *gen) nextOp() (op, bool) {
 			{14, g.opAppend}, {16, g.opInsert}, {7, g.opRemove}, {1, g.opRemoveAll}, {9, g.opShift}, {4, g.opCompact},
 			{6, g.opResize}, {1, g.opByteOrder}, {10, g.opSetType}, {4, g.opSetEnum}, {9, g.opAddValue}, {3, g.opRemoveValue},
 			{1, g.opRemoveAllValues}, {3, g.opSetMinSize}, {6, g.opUpdateIndex}, {5, g.opMuxInsert}, {1, g.opMuxRemove},
-			{1, g.opMuxShift}, {3, g.opNew},
+			{1, g.opMuxShift}, {3, g.opNew}, {2, g.opRename},
 		}
 	} else {
 		tbl = []weighted{
 			{5, g.opAppend}, {5, g.opInsert}, {3, g.opRemove}, {1, g.opRemoveAll}, {3, g.opShift}, {1, g.opCompact},
 			{2, g.opResize}, {6, g.opSetType}, {2, g.opSetEnum}, {4, g.opAddValue}, {1, g.opRemoveValue}, {1, g.opSetMinSize},
 			{3, g.opUpdateIndex}, {30, g.opMuxInsert}, {7, g.opMuxRemove}, {5, g.opMuxClearGroup}, {1, g.opMuxClearAll},
-			{9, g.opMuxShift}, {3, g.opNew},
+			{9, g.opMuxShift}, {3, g.opNew}, {5, g.opRename},
 		}
 	}
 	total := 0
@@ -301,8 +304,10 @@ func (g *gen) zoneAdmit(o op) bool {
 func (g *gen) opNew() (op, bool) {
 	r := g.r
 	switch p := r.below(100); {
-	case p < 10:
+	case p < 7:
 		return op{k: "newmsg", z: r.below(9)}, true
+	case p < 10:
+		return op{k: "newmsgbus", z: r.below(9)}, true
 	case p < 15:
 		return op{k: "newenum"}, true
 	case p < 35 && len(g.sn().enums) > 0:
@@ -442,7 +447,53 @@ func (g *gen) opResize() (op, bool) {
 	if g.r.chance(10) {
 		c = []int{g.extreme()}
 	}
+	if g.run.w.onBus[m] {
+		// the bus admits 8 bytes: sizes above it are refused by the bus, not by the message
+		if g.r.chance(45) {
+			c = []int{9, 9, 16, 64, 12, busLimit + 1 + g.r.below(8)}
+		}
+		return op{k: "resizebus", a: m, z: c[g.r.below(len(c))], b: busLimit}, true
+	}
 	return op{k: "resize", a: m, z: c[g.r.below(len(c))]}, true
+}
+
+// after a resize that the bus refused: an edit that would need the space the message did not get
+func (g *gen) opAfterRefusedResize(m, asked int) (op, bool) {
+	sn := g.sn()
+	mi := sn.msgs[m]
+	size := mi.bytes * 8
+	free := g.freeSigs()
+	switch p := g.r.below(100); {
+	case p < 35 && len(free) > 0:
+		return op{k: "append", a: m, b: g.r.pick(free)}, true
+	case p < 70 && len(free) > 0:
+		x := g.r.pick(free)
+		c := []int{size, size + 1, size + 8, asked*8 - sn.sigs[x].size, size - sn.sigs[x].size + 1}
+		return op{k: "insert", a: m, b: x, z: c[g.r.below(len(c))]}, true
+	case len(mi.lay) > 0:
+		x := mi.lay[len(mi.lay)-1]
+		c := []int{1, 5, size - sn.end(x) + 1, 64}
+		return op{k: "shr", a: m, b: x, z: c[g.r.below(len(c))]}, true
+	}
+	return op{}, false
+}
+
+// Signal.UpdateName with a fresh name: attached signals first (inside multiplexers even more)
+func (g *gen) opRename() (op, bool) {
+	if len(g.sn().sigs) == 0 {
+		return op{}, false
+	}
+	inMux := g.sigsWhere(func(h int) bool { return g.sn().sigs[h].pu >= 0 })
+	att := g.attachedSigs()
+	switch p := g.r.below(100); {
+	case p < 55 && len(inMux) > 0:
+		return op{k: "rename", a: g.r.pick(inMux)}, true
+	case p < 85 && len(att) > 0:
+		return op{k: "rename", a: g.r.pick(att)}, true
+	case p < 97:
+		return op{k: "rename", a: g.r.below(len(g.sn().sigs))}, true
+	}
+	return op{k: "rename", a: bogus}, true
 }
 
 func (g *gen) opByteOrder() (op, bool) {
@@ -757,6 +808,14 @@ func randomHistory(seed uint64, mode string, nops, zonePct int) *runner {
 		}
 		if !g.emit(o) {
 			break
+		}
+		if o.k == "resizebus" && o.z > busLimit && g.r.chance(70) {
+			if f, ok := g.opAfterRefusedResize(o.a, o.z); ok && g.zoneAdmit(f) {
+				i++
+				if !g.emit(f) {
+					break
+				}
+			}
 		}
 	}
 	return g.run
